@@ -14,7 +14,7 @@ RULE = ('SEQ under a virtual clock: every sequence up to the stated depth over {
         '{request of two of the four types} + {advance(ttl/2), advance(ttl), advance(ttl+1ms)} (no two consecutive advances, at '
         'least one request), x request type pairs x fragment size {None,64} x request_queue_size {0,2}; reference lease ledger: '
         'no request before the first LEASE, at most count requests per lease, none later than arrival+ttl (the boundary instant is '
-        'accepted either way), overflow of a bounded queue fails the call, after a final generous LEASE every accepted request was '
+        'accepted either way, except that a LEASE with time-to-live 0 releases nothing: separate alphabet {LEASE(2,0), LEASE(1,0), LEASE(1,1000), two request types, advance}), overflow of a bounded queue fails the call, after a final generous LEASE every accepted request was '
         'sent exactly once in call order; responder: one LEASE frame per published lease with exact count and ttl; non-trivial = '
         'sequence in which a request was made while no usable lease existed; states = distinct ledger states')
 EXPLANATION = 'exhaustive enumeration of operation sequences on the real requester; wall clock replaced by the virtual clock through the module-level datetime seam'
@@ -33,7 +33,11 @@ def bounds(tier):
             'responder_counts': [0, 1, 0x7FFFFFFF], 'responder_ttls_ms': [1000, 1500, 250, 1, 2250, 86401500, 2073600000]}
 
 
-def symbols(kinds):
+def symbols(kinds, alpha=None):
+    if alpha == 'ttl0':
+        # leases that are dead on arrival (time-to-live 0) next to a live one: a zero time-to-live has elapsed the moment the
+        # LEASE arrives, so it releases nothing - the one boundary case that is not a matter of clock resolution
+        return [('L', 2, 0), ('L', 1, 0), ('L', 1, 1000)] + [('R', k) for k in kinds] + [('A', 'ttl+1')]
     return [('L', c, t) for c, t in LEASES] + [('R', k) for k in kinds] + [('A', 'half'), ('A', 'ttl'), ('A', 'ttl+1')]
 
 
@@ -124,7 +128,9 @@ def judge(s, calls, qsize, kinds, fs):
                     lease[3] += 1
                     if lease[3] > lease[2]:
                         bad('at-most-granted', '%s | count=%d' % (kind, lease[2]), 'request #%d is number %d under a lease granting %d' % (idx, lease[3], lease[2]))
-                    if now > lease[0] + lease[1] + 1e-9:
+                    if lease[1] == 0:
+                        bad('none-after-ttl', '%s | zero-ttl-lease' % kind, 'request #%d sent at t=%.3f under a LEASE whose time-to-live is 0 ms (arrived %.3f)' % (idx, now, lease[0]))
+                    elif now > lease[0] + lease[1] + 1e-9:
                         bad('none-after-ttl', '%s | late-by-%dms' % (kind, round((now - lease[0] - lease[1]) * 1000)),
                             'request #%d sent at t=%.3f, lease arrived %.3f ttl %.3f' % (idx, now, lease[0], lease[1]))
     # reference queue model for overflow / loss
@@ -176,8 +182,8 @@ def nontrivial(calls, s):
     return any(c[2] is None and sent_at.get(c[0], 1e18) > c[3] + 1e-12 for c in calls) or any(c[2] for c in calls)
 
 
-def explore(kinds, fs, qsize, first, depth, part, flavour, role='client'):
-    syms = symbols(kinds)
+def explore(kinds, fs, qsize, first, depth, part, flavour, role='client', alpha=None):
+    syms = symbols(kinds, alpha)
 
     def rec(seq):
         if any(x[0] == 'R' for x in seq):
@@ -274,6 +280,13 @@ def make_units(tier):
         if first[0] != 'A':
             units.append({'kind': 'requester', 'kinds': list(KIND_PAIRS[0]), 'fs': None, 'q': 2, 'first': list(first), 'depth': DEPTH[tier] - 1,
                           'flavour': 'tcp', 'role': 'server'})
+    # zero time-to-live leases (dead on arrival) mixed with a live one
+    for kinds in KIND_PAIRS:
+        for fs, q in ((None, 2), (64, 2), (None, 0)):
+            for first in symbols(kinds, 'ttl0'):
+                if first[0] != 'A':
+                    units.append({'kind': 'requester', 'kinds': list(kinds), 'fs': fs, 'q': q, 'first': list(first), 'depth': DEPTH[tier],
+                                  'flavour': 'tcp', 'alpha': 'ttl0'})
     units.append({'kind': 'responder'})
     return units
 
@@ -287,7 +300,7 @@ def run_unit(unit, part):
                         responder_case(flavour, count, ttl, multi, part)
         part.sample({'kind': 'responder', 'counts': [0, 1, 0x7FFFFFFF], 'ttls_ms': [1000, 1500, 250, 1, 2250]})
         return
-    explore(tuple(unit['kinds']), unit['fs'], unit['q'], tuple(unit['first']), unit['depth'], part, unit['flavour'], unit.get('role', 'client'))
+    explore(tuple(unit['kinds']), unit['fs'], unit['q'], tuple(unit['first']), unit['depth'], part, unit['flavour'], unit.get('role', 'client'), unit.get('alpha'))
     part.sample({'kind': 'requester', 'request_types': unit['kinds'], 'fs': unit['fs'], 'queue': unit['q'], 'first': unit['first'], 'depth': unit['depth']}, limit=1)
 
 
